@@ -237,7 +237,9 @@ class RunEnv:
 
     def __enter__(self):
         import numpy as np
-        base = '/dev/shm' if os.path.isdir('/dev/shm') and os.access('/dev/shm', os.W_OK) else None
+        base = os.environ.get('VSIM_BASE')  # set by bin/vcheck: removed as a whole when the command ends
+        if not base or not os.path.isdir(base):
+            base = '/dev/shm' if os.path.isdir('/dev/shm') and os.access('/dev/shm', os.W_OK) else None
         self.dir = tempfile.mkdtemp(prefix='vsim-', dir=base)
         os.environ['XDG_CACHE_HOME'] = self.dir
         random.seed(self.seed)
